@@ -59,7 +59,7 @@ def families(tier):
     shp('local-call-backward', insn(0x05, 0, 0, 2), insn(0xb7, 0), EX, insn(0x85, 0, 1, 0, -3), EX)
     shp('many-exits', *([insn(0x15, 1, 0, 1, 0), EX] * 20 + [EX]))
     # (iii) sizes
-    for n in ([1, 2, 511, 65535, 65536, 65537] if tier == 'quick' else [1, 2, 511, 4095, 65535, 65536, 65537, 131072, 999999]):
+    for n in ([1, 2, 511, 65535, 65536, 65537] if tier == 'quick' else [1, 2, 511, 4095, 65535, 65536, 65537, 131072, 999996]):      # + 4 instructions stays within PROG_MAX_INSNS
         P.append((f'size-{n + 1}', F * n + EX, []))
         if n >= 65535: P.append((f'size-{n + 3}-div-mod-at-end', insn(0xb7, 1, 0, 0, 7) + F * n + insn(0x3f, 1, 2) + insn(0x9f, 1, 2) + EX, []))
     return P
